@@ -133,7 +133,7 @@ class Ctx:
         """(Re)build the harness against /repo's working tree. ninja rebuilds exactly the translation
         units whose sources changed; ccache only accelerates. Returns (ok, log)."""
         bd = self.build_dir(variant)
-        flags = {'rel': '-O1', 'asan': '-O1 -g -fsanitize=address,undefined -fno-sanitize-recover=undefined -fno-omit-frame-pointer'}[variant]
+        flags = {'rel': '-O1', 'asan': '-O1 -g -fsanitize=address,undefined,float-cast-overflow -fno-sanitize-recover=undefined,float-cast-overflow -fno-omit-frame-pointer'}[variant]
         with Lock('build-' + variant):
             os.makedirs(bd, exist_ok=True)
             env = {'CCACHE_DIR': os.path.join(SCRATCH, 'ccache'), 'CCACHE_MAXSIZE': '2G'}
